@@ -6,6 +6,7 @@ package main
 
 import (
 	"bufio"
+	"bytes"
 	"fmt"
 	"os"
 	"strings"
@@ -118,6 +119,17 @@ func kvExec(b *kvBackend, w []string) string {
 		return y
 	}
 	switch w[0] {
+	case "compact":
+		// maintenance: no key, value or pending entry may change (nil bounds = the whole key space)
+		var st, lim []byte
+		if w[1] != "nil" {
+			st = un(w[1])
+		}
+		if w[2] != "nil" {
+			lim = un(w[2])
+		}
+		b.db.Compact(st, lim) // (what an engine says about a range is its own business; the content is compared by the following operations)
+		return "ok"
 	case "put":
 		if err := b.db.Put(un(w[1]), un(w[2])); err != nil {
 			return "err"
@@ -296,8 +308,21 @@ func runKV(seed uint64, n int, outDir string, replay string) {
 				line = fmt.Sprintf("del %s", h.Hex(kvKey(rc)))
 			case k < 26:
 				line = fmt.Sprintf("get %s", h.Hex(kvKey(rc)))
-			case k < 30:
+			case k < 29:
 				line = fmt.Sprintf("has %s", h.Hex(kvKey(rc)))
+			case k < 30:
+				st, lim := "nil", "nil"
+				a, b := kvKey(rc), kvKey(rc)
+				if bytes.Compare(a, b) > 0 {
+					a, b = b, a
+				}
+				if rc.Chance(40) {
+					st = h.Hex(a)
+				}
+				if rc.Chance(30) && !bytes.Equal(a, b) {
+					lim = h.Hex(b)
+				}
+				line = fmt.Sprintf("compact %s %s", st, lim)
 			case k < 40:
 				p := kvKey(rc)
 				if rc.Chance(30) {
